@@ -126,7 +126,9 @@ def build_coq(timeout=3000):
     """full .vo build of the development (incremental).  Returns (ok, log)."""
     with Lock("coq"):
         run([os.path.join(VERIF, "lib", "gen_coqproject.sh")], check=True)
-        rc, out = run(["make", "-j" + NPROC], cwd=COQ, timeout=timeout)
+        # -k: a theory that fails (e.g. a regenerated Gen/*.v table that no longer passes its
+        # obligation) must not keep unrelated theories from being built
+        rc, out = run(["make", "-k", "-j" + NPROC], cwd=COQ, timeout=timeout)
         return rc == 0, out
 
 
@@ -386,10 +388,12 @@ class Check:
         ok, mlog = build_coq()
         self.cov["checker_cmd"] = "coq_makefile -f _CoqProject && make -j%s (full .vo build, Coq 8.16.1) ; coqc %s ; Print Assumptions" % (
             NPROC, " ".join(files))
+        make_failed = None
         if not ok:
-            failed = coq_failed_files(mlog)
-            self.proof_broken = dict(kind="make", files=failed, message=mlog[-2500:])
-            return False
+            # not fatal by itself: another property's obligation may be the broken one.  The forced
+            # re-check of this property's own files below fails if anything in their cone is missing.
+            make_failed = dict(kind="make", files=coq_failed_files(mlog), message=mlog[-2500:])
+            self.cov["unrelated_coq_failures"] = make_failed["files"]
         pr = prove(files)
         self.cov["obligations"] += pr["obligations"]
         self.cov["discharged"] += pr["discharged"]
@@ -400,6 +404,8 @@ class Check:
             return False
         if not pr["ok"]:
             self.proof_broken = dict(kind="coqc", **pr["failed"])
+            if make_failed:
+                self.proof_broken["make"] = make_failed
             return False
         self.proof_broken = None
         if self.thorough:
